@@ -622,6 +622,19 @@ def check(ctx):
         raise AnalysisError('expected an undefined-reference walker and a '
                             'cycle walker, found %d recursive walkers'
                             % len(ws))
+    for w in ws:
+        cp = w.params[1] if len(w.params) > 1 else None
+        for n in ast.walk(w.node):
+            if isinstance(n, (ast.While, ast.For)) and any(
+                    isinstance(x, ast.Name) and x.id == cp and isinstance(
+                        x.ctx, ast.Store) for b in n.body
+                    for x in ast.walk(b)):
+                raise AnalysisError(
+                    'the validation walker %s rebinds its check parameter '
+                    '`%s` inside a loop (line %d: it steps through wrapped '
+                    'checks in place instead of recursing): which kinds of '
+                    'child it reaches is read off the recursive form only'
+                    % (w.qual, cp, n.lineno))
     check_exhaustive(ctx, ws)
     check_walker_paths(ctx, ws)
     check_aggregate(ctx, cr, ws)
